@@ -16,7 +16,7 @@ from typing import List, Optional, Set
 
 from .report import Ctx
 from .srcmodel import AnalysisError, call_leaf, calls_in, const_str, contains, dotted, get_kwarg, src, walk_local
-from .util import body_raises, enclosing_trys, enclosing_withs, guard_chain, root_name, strip_not
+from .util import body_raises, nested_defs, enclosing_trys, enclosing_withs, guard_chain, root_name, strip_not
 
 NX = {"e"}
 
@@ -227,6 +227,41 @@ def run(ctx: Ctx) -> int:
         ok = len(gch) == 1 and isinstance(gch[0][0], ast.Name) and gch[0][0].id == "serialize" and gch[0][1] is False
         # reached on every non-serialising, non-instantiating, non-NestedArg path
     ctx.oblige("C14.d", ok, po[0] if po else act_fn, "on the parsing path init_args are always parsed by the class's own parser" if ok else "init_args can bypass parser.parse_object on the parsing path", fn=act_fn)
+
+    # ---------------- C14.f: short names resolve for every importable subclass --------------------------------
+    # get_all_subclass_paths.add_subclasses walks the whole subclass tree; what is *listed* is filtered
+    # (abstract, private, protocol), what is *walked* is not - a filter on the walk hides every class below it
+    gasp = ctx.func("_typehints:get_all_subclass_paths")
+    addf = nested_defs(gasp).get("add_subclasses")
+    ctx.need(addf, "get_all_subclass_paths.add_subclasses")
+    ga2 = ctx.cfg(addf)
+    walk_loops = [lp for lp in walk_local(addf) if isinstance(lp, ast.For) and "__subclasses__" in ast.unparse(lp.iter) and any(isinstance(c.func, ast.Name) and c.func.id == "add_subclasses" for c in calls_in(lp))]
+    appends = [c for c in calls_in(addf) if call_leaf(c) == "append"]
+    ctx.need(len(walk_loops) == 1 and appends, "add_subclasses: loop over cl.__subclasses__() and the listing append")
+    listing_filters = set()
+    for t, pol in guard_chain(appends[0], stop=addf):
+        for c in [x for x in ast.walk(t) if isinstance(x, ast.Call)]:
+            if call_leaf(c) and call_leaf(c) not in ("isinstance", "hasattr", "getattr"):
+                listing_filters.add(call_leaf(c))
+    walk_guards = set()
+    for t, pol in ga2.guards_of(ga2.cn(walk_loops[0]), exclude_labels={"e"}):
+        for c in [x for x in ast.walk(t) if isinstance(x, ast.Call)]:
+            if call_leaf(c):
+                walk_guards.add(call_leaf(c))
+    LISTING_ONLY = {"is_private", "isabstract", "is_protocol"}  # what makes a class unsuitable as a *choice*, not as a parent of choices
+    WALK_ALLOWED = {"hasattr", "get_typehint_origin", "union", "is_local", "is_subclass", "get_import_path"}
+    unknown = sorted(walk_guards - LISTING_ONLY - WALK_ALLOWED - listing_filters)
+    if unknown:
+        raise AnalysisError(f"add_subclasses: the walk over subclasses depends on {unknown}; classify it (listing filter or legitimate cut) in rules_C14.py")
+    shared_f = sorted(walk_guards & (LISTING_ONLY | (listing_filters - WALK_ALLOWED)))
+    ok = not shared_f and bool(listing_filters & LISTING_ONLY)
+    ctx.oblige(
+        "C14.f",
+        ok,
+        walk_loops[0],
+        f"the walk over subclasses is not conditioned on the listing filters {sorted(listing_filters)}" if ok else f"the walk over subclasses is cut off by the listing filter(s) {shared_f}: a public class below a private / abstract / protocol class is never listed, so its bare name no longer resolves although its full path is accepted",
+        fn=addf,
+    )
 
     # ---------------- C14.e: init_args kept across a class_path change are valid for the new class -----------
     # discard_init_args_on_class_path_change keeps an old init_arg only if the NEW class's parser accepts it; the
